@@ -293,6 +293,12 @@ def model_save_quantized_weights(model, filename=None, custom_objects={}):
       # isinstance() might fail due to inconsistent module import path.
       # Use __class__.__name__ instead.
       layer_class = layer.__class__.__name__
+      if layer_class == "QBatchNormalization":
+        # get_weights() omits gamma when scale=False and beta when
+        # center=False; keep quantizers and weights aligned.
+        qs = [q for q, used in zip(
+            qs, [layer.scale, layer.center, True, True]) if used]
+
       if (layer_class == "QBatchNormalization" and
           layer.name in bn_layers_to_skip):
         # Mark current bn layer to be fused with the previous layer
